@@ -611,6 +611,33 @@ def run_other(case):
             wg = np.real(f(G))
             refg = np.linalg.eigvalsh(np.moveaxis(G.reshape(d, d, -1), -1, 0)).T.reshape(d, 2, 3)
             c.cmp("shape=(2,3)", "batch axes (2,3)", np.sort(wg, axis=0), refg, tol)
+        # non-symmetric tensors with real, distinct eigenvalues (a deformation gradient, a first Piola-Kirchhoff stress, a
+        # triangular matrix): right eigenvectors A v = w v for every returned pair, eigenvalues vs the known ones
+        if name in ("eig", "eigvals") and d >= 2:
+            nsm, known = [], []
+            for k_ in range(6):
+                Vb = np.eye(d) + 0.35 * zoo.offarr(seed, 140 + k_, (d, d))
+                wv = np.array([1.0, 2.5, -0.7][:d]) * (1 + 0.1 * k_)
+                nsm.append(Vb @ np.diag(wv) @ np.linalg.inv(Vb))
+                known.append(np.sort(wv))
+            Tt = np.triu(1.0 + zoo.offarr(seed, 150, (d, d))) + np.diag([0.5, 2.0, 3.5][:d])
+            nsm.append(Tt)
+            known.append(np.sort(np.diag(Tt)))
+            NS = np.ascontiguousarray(np.moveaxis(np.array(nsm), 0, -1))
+            NS0 = NS.copy()
+            if name == "eig":
+                wn_, vn_ = fm.eig(NS)
+                res_ = np.einsum("ijn,jan->ian", NS.astype(complex), np.asarray(vn_, complex)) - np.asarray(vn_, complex) * np.asarray(wn_, complex)[None]
+                c.trans += 1
+                if np.abs(res_).max() > 1e-10 * max(np.abs(NS).max(), 1.0):
+                    c.bad("non-symmetric/pairs", "A v = w v for the pairs returned for non-symmetric tensors (right eigenvectors)", float(np.abs(res_).max()), 0, 1e-10)
+                wr_ = np.sort(np.real(wn_), axis=0)
+            else:
+                wr_ = np.sort(np.real(fm.eigvals(NS)), axis=0)
+                c.trans += 1
+            c.cmp("non-symmetric/values", name + " eigenvalues of non-symmetric tensors with known real spectrum", wr_, np.array(known).T, 1e-10)
+            if not np.array_equal(NS, NS0):
+                c.bad("non-symmetric/inputs", "inputs modified", "modified", "unchanged")
         # numeric regime: nearly equal eigenvalues (a nearly undeformed / nearly equi-biaxial state): R diag(l, l (1 + delta), ..) R^T
         # for delta down to 1e-12, several magnitudes and axes; the exact eigenvalues are known, tolerance 1e-13 relative
         if d >= 2:
